@@ -313,6 +313,12 @@ theorem C12_witness_old_run_after_cancel :
 def exTrace : List Act :=
   [.enter 0 2, .enter 1 1, .startCmd 0, .startCmd 1, .cancelCall 0, .endCmd 0 false, .endCmd 1 true,
    .finish 1, .cancelRet 0, .enter 2 1]
+-- the hypothesis of `C12_wg_counts` holds of it (three runs), and the counter really moves
+example : ∀ a ∈ exTrace, a.Below 3 := by
+  intro a ha
+  simp only [exTrace, List.mem_cons, List.not_mem_nil, or_false] at ha
+  rcases ha with rfl | rfl | rfl | rfl | rfl | rfl | rfl | rfl | rfl | rfl <;> simp [Act.Below]
+example : (run init (exTrace.take 4)).wg = 2 ∧ (run init exTrace).wg = 0 := by decide
 example : (run init exTrace).cret 0 = true ∧ (run init exTrace).phase 0 = .done true ∧
     (run init exTrace).phase 1 = .done false ∧ (run init exTrace).phase 2 = .done true ∧
     (run init exTrace).started = [1, 0] := by decide
